@@ -387,6 +387,10 @@ impl Property for C17 {
     fn watchdog_s(&self) -> u64 {
         300
     }
+    fn deadlock_is_violation(&self) -> bool {
+        // "the call always terminates" is part of the statement
+        true
+    }
     fn rule(&self) -> &'static str {
         "fault sequences owned by the harness: keys and values come from lenders implementing RewindableIoLender with a fault plan (fail at item j of pass p, j = n meaning at the end of the stream; fail the rewind after pass p; none). Enumerated completely for 6 table rows x n in {0,1,2,3,5,8,13,21} x stream x p in 0..=4 x j in 0..=n and rewind faults after passes 0..=3, each with and without a duplicate key (duplicates with check_dups force exactly three retry passes, so faults in passes 1..=3 are reached deterministically); plus random (row, n<=300, configuration, function/filter, fault plans, duplicate plans with multiplicity 2/3/10 at first/last/interior positions, adjacent or spread), plus duplicates (multiplicity up to 3000) in sets of 1e5..2e5 keys crossing shard boundaries, plus the crate's own LineLender/ZstdLineLender/GzipLineLender over a harness Read+Seek source whose k-th seek or a read at a given offset fails (retries forced by a duplicate or made likely by 101..112 keys). Oracle: a fault that was reached => Err whose chain contains the injected error; duplicates with check_dups => Err after exactly 3 rewinds; otherwise Ok with len()==n and every pair verified; Ok with any wrong pair is a violation in all cases; more rewinds than the deterministic attempt bound => nonconv. Non-trivial: the fault was reached in a retry pass, or a duplicate not adjacent to its twin; distinct = distinct hash of the decoded spec."
     }
